@@ -138,6 +138,38 @@ fn limit_scenario(c: &mut Ctx) {
             c.closure(&a, "refused merge");
         }
     }
+    // the same entries written once more by another signer (an open register takes them): the operations differ, their
+    // entry hashes do not. Whatever the merge decides at the limit, what it leaves must verify elsewhere.
+    {
+        let other_signer = gen::bls_sk(&mut c.cx.rng).public_key();
+        let na = *[1024usize, 1023, 1022, 1020].choose(&mut c.cx.rng).expect("nonempty");
+        let ops = mint(na);
+        let mut a = base.clone();
+        for op in &ops {
+            let _ = a.add_op(op.clone());
+        }
+        let ntw = c.cx.rng.gen_range(1..=6);
+        let mut b = base.clone();
+        for op in ops.iter().take(ntw) {
+            let mut raw = gen::RawOp::from_op(op);
+            raw.source = other_signer;
+            let _ = b.add_op(raw.to_op());
+        }
+        if b.ops().len() == ntw && a.ops().len() == na {
+            for verified in [false, true] {
+                c.cx.eval();
+                c.cx.count("limit:merges-of-same-entries-by-another-signer");
+                let mut aa = a.clone();
+                let before = aa.ops().clone();
+                let res = if verified { aa.verified_merge(&b) } else { aa.merge(&b) };
+                if res.is_ok() {
+                    c.closure(&aa, if verified { "verified_merge of the same entries written by another signer" } else { "merge of the same entries written by another signer" });
+                } else if *aa.ops() != before {
+                    c.cx.violation("refused-merge-changed-replica", format!("a merge of {na} operations with {ntw} operations writing the same entries under another signer was refused ({res:?}) yet the operation set changed"), json!({"verified": verified}));
+                }
+            }
+        }
+    }
     // overlapping replicas whose sizes sum to more than the limit while their union stays below it
     {
         let ops = mint(900);
@@ -525,6 +557,32 @@ impl Check for C06 {
                         c.cx.violation("refused-merge-changed-replica", "a refused verified_merge changed the operation set".to_string(), json!({"perms": c.perms}));
                     }
                 }
+            }
+        }
+        // ---- an operation addressed to another register arriving inside a whole replica state (all permission settings,
+        //      the open one included: the address is not a matter of who may write)
+        {
+            let stray = gen::reg_op(*foreign.address(), vec![0x5a, c.cx.rng.gen()], BTreeSet::new(), &owner);
+            let a = replicas[c.cx.rng.gen_range(0..replicas.len())].clone();
+            let mut ops: BTreeSet<RegisterOp> = if c.cx.rng.gen_bool(0.5) { a.ops().clone() } else { BTreeSet::new() };
+            ops.insert(stray.clone());
+            let sig = owner.sign(base.base_register().bytes().expect("bytes"));
+            let state = SignedRegister::new(base.base_register().clone(), sig, ops);
+            c.cx.eval();
+            c.cx.count("states-with-op-of-another-register");
+            let v = state.verify();
+            let va = state.verify_with_address(addr);
+            let mut target = a.clone();
+            let before = target.ops().clone();
+            let res = target.verified_merge(&state);
+            if v.is_ok() || va.is_ok() || res.is_ok() || target.ops().contains(&stray) {
+                c.cx.violation(
+                    "inadmissible-op-entered-through-merge:op-of-another-register",
+                    format!("a replica state carrying an operation addressed to another register: verify={v:?} verify_with_address={va:?} verified_merge={res:?}; the operation is now in the replica: {} (permissions: {})", target.ops().contains(&stray), c.perms),
+                    json!({"perms": c.perms}),
+                );
+            } else if *target.ops() != before {
+                c.cx.violation("refused-merge-changed-replica", "a refused verified_merge changed the operation set".to_string(), json!({"perms": c.perms}));
             }
         }
         // ---- different base register
